@@ -386,13 +386,17 @@ def dictionary_mc(quick):
 
 # ------------------------------------------------------------------ Stream.tla: the payload-level producer/consumer protocol
 
-STREAM_MUTANTS = ["MutRetireBySignal", "MutNoRetire", "MutNilRelease", "MutLenientCount", "MutSkipUnknown", "MutOpenOnCreate"]
+# mutants that must violate an invariant in every run (anti-vacuity).  MutLenientCount and MutSkipUnknown only led to a panic
+# through the use-after-release that fix 8e767b7c removed; with the main record retained they are harmless at the level of
+# the listed properties and are kept in the specification as switches only.
+STREAM_MUTANTS = ["MutRetireBySignal", "MutNoRetire", "MutNilRelease", "MutOpenOnCreate", "MutNoRetainMain"]
+STREAM_SWITCHES = STREAM_MUTANTS + ["MutLenientCount", "MutSkipUnknown"]
 
 def _stream_cfg(related, batches, faults, levels=(1, 2), mutant=None):
     lines = ["SPECIFICATION MCSpec", "CONSTANTS", '  Signals = {"t", "l"}', "  Related = {%s}" % ", ".join('"%s"' % r for r in related),
              "  MainOf <- MCMainOf", "  Family <- MCFamily", "  KnownOf <- MCKnownOf", "  Singletons <- MCSingletons", '  Foreign = "X"',
              "  MaxFaults = %d" % faults, "  Levels = {%s}" % ", ".join(map(str, levels)), "  MaxBatches = %d" % batches]
-    for m in STREAM_MUTANTS:
+    for m in STREAM_SWITCHES:
         lines.append("  %s = %s" % (m, "TRUE" if m == mutant else "FALSE"))
     lines.append("INVARIANTS NoPanic NoSilentLoss HealthyOK JudgedCleanInSequence Sync IdDenotesOne NoReuse SchemaFirst MainFirst "
                  "OncePerType LiveBound ConsumerBound")
@@ -402,14 +406,17 @@ def _stream_cfg(related, batches, faults, levels=(1, 2), mutant=None):
 def stream_mc(quick):
     """Exhaustive check of Stream.tla (producer / faults / consumer) plus one run per specification mutant: each mutant
     must violate an invariant, which shows the invariants are not vacuous on the bounded instance."""
-    plans = [("R,Q b2 f2", ("R", "Q"), 2, 2), ("R b3 f2", ("R",), 3, 2)] if quick else [("R,Q b3 f2", ("R", "Q"), 3, 2), ("R b4 f2", ("R",), 4, 2),
+    plans = [("R,Q b2 f2", ("R", "Q"), 2, 2), ("R b3 f2", ("R",), 3, 2), ("R b2 f3", ("R",), 2, 3)] if quick else [("R,Q b3 f2", ("R", "Q"), 3, 2), ("R b4 f2", ("R",), 4, 2),
                                                                                        ("R,Q b2 f3", ("R", "Q"), 2, 3)]
     res = {"configs": [], "distinct": 0, "generated": 0, "wall": 0.0, "problem": None, "mutants": {}}
     def one(p):
         name, rel, nb, nf = p
         return name, C.run_tlc(SPEC, "MC_Stream", _stream_cfg(rel, nb, nf), workers=5 if quick else 8, timeout=600 if quick else 5400)
     def mut(m):
-        return m, C.run_tlc(SPEC, "MC_Stream", _stream_cfg(("R",), 3, 2, mutant=m), workers=2, timeout=600)
+        # the use-after-release of the main record needs three faults on one batch (drop the main payload, duplicate a
+        # related one, relabel a copy as main)
+        nb, nf = (2, 3) if m == "MutNoRetainMain" else (3, 2)
+        return m, C.run_tlc(SPEC, "MC_Stream", _stream_cfg(("R",), nb, nf, mutant=m), workers=3, timeout=900)
     with ThreadPoolExecutor(max_workers=3) as pool:
         fs = [pool.submit(one, p) for p in plans]
         ms = [pool.submit(mut, m) for m in STREAM_MUTANTS]
@@ -448,6 +455,7 @@ CONSTANTS
   MutLenientCount = FALSE
   MutSkipUnknown = FALSE
   MutOpenOnCreate = FALSE
+  MutNoRetainMain = FALSE
 CONSTRAINT HW
 INVARIANT TraceInv
 POSTCONDITION Report
@@ -537,7 +545,7 @@ def stream_behaviours(num, seed_, rng, timeout=600):
     recorded, validated step by step by StreamTrace.tla and judged by OtapObs.tla as it happened."""
     lines = ["SPECIFICATION SimSpec", "CONSTANTS", '  Signals = {"t", "l", "m"}', '  Related = {"R", "Q"}', "  MainOf <- MCMainOf",
              "  Family <- MCFamily", "  KnownOf <- MCKnownOf", "  Singletons <- MCSingletons", '  Foreign = "X"', "  MaxFaults = 4",
-             "  Levels = {1, 2, 3}", "  MaxBatches = 5"] + ["  %s = FALSE" % m for m in STREAM_MUTANTS] + \
+             "  Levels = {1, 2, 3}", "  MaxBatches = 5"] + ["  %s = FALSE" % m for m in STREAM_SWITCHES] + \
             ["INVARIANTS Emit NoPanic NoSilentLoss HealthyOK", "CHECK_DEADLOCK FALSE"]
     r = C.run_tlc(SPEC, "StreamSim", "\n".join(lines) + "\n", workers=1, timeout=timeout,
                   extra_args=["-simulate", "num=%d" % num, "-depth", "70", "-seed", str(seed_)])
